@@ -5,6 +5,7 @@ import (
 	"go/ast"
 	"go/token"
 	"go/types"
+	"regexp"
 	"strings"
 
 	"golang.org/x/tools/go/packages"
@@ -23,6 +24,15 @@ func init() {
 			"(R03.3) every attribute value written after `=` is the result of the one quoting routine html.EscapeAttrVal. The trait tables themselves are decided under C17. Not covered: whitespace significance per document, optional-tag inference in every parent context, `</script` inside script text.",
 		Run: runC03,
 	})
+	mutant(&Mutant{Name: "c03-empty-colgroup-dropped", Property: "C03", File: "html/html.go",
+		Old: "keepTag = next.TokenType != html.StartTagToken || next.Hash != Col", New: "keepTag = false",
+		Rule: "R03.9", Construct: "colgroup tag dropped"})
+	mutant(&Mutant{Name: "c03-body-start-dropped-before-script", Property: "C03", File: "html/html.go",
+		Old: "next.Hash == Link || next.Hash == Script || next.Hash == Style", New: "next.Hash == Link || next.Hash == Style",
+		Rule: "R03.8", Construct: "body start tag dropped"})
+	mutant(&Mutant{Name: "c03-rt-end-tag-dropped-blindly", Property: "C03", File: "html/html.go",
+		Old: "t.Hash == Td || t.Hash == Option || t.Hash == Dd || t.Hash == Dt || t.Hash == Li {", New: "t.Hash == Td || t.Hash == Option || t.Hash == Dd || t.Hash == Dt || t.Hash == Li || t.Hash == Rt {",
+		Rule: "R03.2", Construct: "needs no look-ahead"})
 	mutant(&Mutant{Name: "c03-p-end-tag-decision-as-switch", Property: "C03", File: "html/html.go",
 		Old: "\t\t\t\t\t\t\tif next.TokenType == html.ErrorToken || next.TokenType == html.EndTagToken && next.Traits != 0 && next.Traits&keepPTag == 0 || next.TokenType == html.StartTagToken && next.Traits&omitPTag != 0 {\n\t\t\t\t\t\t\t\tomitEndTag = true // omit p end tag\n\t\t\t\t\t\t\t}\n", New: "\t\t\t\t\t\t\tswitch next.TokenType {\n\t\t\t\t\t\t\tcase html.ErrorToken:\n\t\t\t\t\t\t\t\tomitEndTag = true\n\t\t\t\t\t\t\tcase html.EndTagToken:\n\t\t\t\t\t\t\t\tomitEndTag = next.Traits&keepPTag == 0\n\t\t\t\t\t\t\tcase html.StartTagToken:\n\t\t\t\t\t\t\t\tomitEndTag = next.Traits&omitPTag != 0\n\t\t\t\t\t\t\t}\n",
 		Rule: "R03.2", Construct: "assigned condition"})
@@ -49,6 +59,9 @@ func init() {
 		Rule: "R03.2", Construct: "omitEndTag"})
 	mutant(&Mutant{Name: "c03-omit-span-end", Property: "C03", File: "html/html.go",
 		Old: "t.Hash == Rb || t.Hash == Rt || t.Hash == Rtc || t.Hash == Rp {", New: "t.Hash == Rb || t.Hash == Rt || t.Hash == Rtc || t.Hash == Rp || t.Hash == Span {",
+		Rule: "R03.2", Construct: "enclosing element set"})
+	mutant(&Mutant{Name: "c03-omit-span-end-blindly", Property: "C03", File: "html/html.go",
+		Old: "t.Hash == Td || t.Hash == Option || t.Hash == Dd || t.Hash == Dt || t.Hash == Li {", New: "t.Hash == Td || t.Hash == Option || t.Hash == Dd || t.Hash == Dt || t.Hash == Li || t.Hash == Span {",
 		Rule: "R03.2", Construct: "unconditional"})
 	mutant(&Mutant{Name: "c03-lookahead-skips-template", Property: "C03", File: "html/html.go",
 		Old: "\t\t\t\t\t\t\tif next.TokenType == html.TextToken && parse.IsAllWhitespace(next.Data) {\n\t\t\t\t\t\t\t\tcontinue\n", New: "\t\t\t\t\t\t\tif next.TokenType == html.TextToken && parse.IsAllWhitespace(next.Data) || next.TokenType == html.TemplateToken {\n\t\t\t\t\t\t\t\tcontinue\n",
@@ -72,6 +85,7 @@ func runC03(c *Ctx) {
 	}
 	c.r031(pk, fd)
 	c.r032(pk, fd)
+	c.r038(pk, fd)
 	c.r033(pk, fd)
 	c.r034(pk, fd)
 }
@@ -298,7 +312,7 @@ func evalIntExpr(info *types.Info, e ast.Expr, env map[string]int64) (int64, boo
 
 func (c *Ctx) r032(pk *packages.Package, fd *ast.FuncDecl) {
 	const rule = "R03.2"
-	c.R.Rule(rule, "for every assignment `omitEndTag = true` in html.(*Minifier).Minify (or `omitEndTag = <condition over next>` — then the condition together with the enclosing if / `switch next.TokenType` guards is what is evaluated): if its guard reads next.Traits, the guard — evaluated over next.TokenType ∈ {Error, Text, StartTag, EndTag, Comment} × next.Traits ∈ {0, each single trait bit} — is false for (EndTag, Traits = 0) and (StartTag, Traits = 0): an element absent from tagMap (custom element, slot) never licenses omission; if its guard is a disjunction of t.Hash == K, every K is an element whose end tag the HTML standard allows to omit; the attribute-less tag removal set ⊆ elements whose start and end tags are both optional")
+	c.R.Rule(rule, "for every assignment `omitEndTag = true` in html.(*Minifier).Minify (or `omitEndTag = <condition over next>` — then the condition together with the enclosing if / `switch next.TokenType` guards is what is evaluated): if its guard reads next.Traits, the guard — evaluated over next.TokenType ∈ {Error, Text, StartTag, EndTag, Comment} × next.Traits ∈ {0, each single trait bit} — is false for (EndTag, Traits = 0) and (StartTag, Traits = 0): an element absent from tagMap (custom element, slot) never licenses omission; if its guard is a disjunction of t.Hash == K, every K is an element whose end tag the HTML standard allows to omit, and — the guard not looking at the next token — one after which a conforming document has nothing but a closing sibling or the parent's end (not rt/rp/rb/rtc: ruby base text follows them); the attribute-less tag removal set ⊆ elements whose start and end tags are both optional")
 	info := pk.TypesInfo
 	h := c.loadHash(rule, "html")
 	if h == nil {
@@ -332,6 +346,23 @@ func (c *Ctx) r032(pk *packages.Package, fd *ast.FuncDecl) {
 			return true
 		}
 		n++
+		// whatever the innermost guard looks at: every enclosing branch that selects elements by t.Hash names only
+		// elements whose end tag is optional at all
+		for p := c.P.Parent(ifs); p != nil; p = c.P.Parent(p) {
+			outer, ok := p.(*ast.IfStmt)
+			if !ok || outer.Body.Pos() > as.Pos() || as.End() > outer.Body.End() || !strings.Contains(str(outer.Cond), "t.Hash") {
+				continue
+			}
+			if names, ok := c.hashDisjunction(info, h, outer.Cond, "t.Hash"); ok {
+				var bad []string
+				for _, nm := range names {
+					if !ref.HTMLOptionalEndTag[nm] {
+						bad = append(bad, nm)
+					}
+				}
+				c.R.Check(len(bad) == 0, rule, fmt.Sprintf("html.Minifier.Minify/omitEndTag guard#%d enclosing element set", n), c.pos(outer.Cond), fmt.Sprintf("%d elements, all with an optional end tag", len(names)), "the end tag of "+strings.Join(bad, ", ")+" can be omitted (under a look-ahead condition), but the HTML standard never makes it optional: following content ends up inside the element")
+			}
+		}
 		cond := ifs.Cond
 		if strings.Contains(str(cond), "next.Traits") {
 			construct := fmt.Sprintf("html.Minifier.Minify/omitEndTag guard#%d over next.Traits", n)
@@ -381,6 +412,13 @@ func (c *Ctx) r032(pk *packages.Package, fd *ast.FuncDecl) {
 			}
 		}
 		c.R.Check(len(bad) == 0, rule, construct, c.pos(cond), fmt.Sprintf("%d elements, all with an optional end tag", len(names)), "the end tag of "+strings.Join(bad, ", ")+" is omitted, but the HTML standard does not make it optional: following content ends up inside the element")
+		var blind []string
+		for _, nm := range names {
+			if ref.HTMLOptionalEndTag[nm] && !ref.HTMLEndTagOmissibleBlind[nm] {
+				blind = append(blind, nm)
+			}
+		}
+		c.R.Check(len(blind) == 0, rule, construct+" needs no look-ahead", c.pos(cond), "only elements that nothing but a closing sibling or the parent's end can follow", "the end tag of "+strings.Join(blind, ", ")+" is omitted without looking at the next token, but in a conforming document text can follow it (`<ruby>漢<rt>kan</rt>字<rt>ji</rt></ruby>`): that text ends up inside the element")
 		return true
 	})
 	// the same decision written as an assignment of a condition, possibly inside `switch next.TokenType`
@@ -585,4 +623,114 @@ func (c *Ctx) r033(pk *packages.Package, fd *ast.FuncDecl) {
 		c.R.Check(len(bad) == 0, rule, construct, c.pos(y.Ast()), "escaped by html.EscapeAttrVal, then written", strings.Join(bad, "; "))
 	}
 	c.R.Floor(rule, "`=` writes", n, 1)
+}
+
+// R03.8: the body start tag is dropped only after a look at what it contains.
+func (c *Ctx) r038(pk *packages.Package, fd *ast.FuncDecl) {
+	c.tagDropLooksAhead(pk, fd, "R03.8", "Body", []string{"Meta", "Noscript", "Link", "Script", "Style", "Template"}, nil, true, "HTML §13.1.2.4: `A body element's start tag can be omitted … except if the first thing inside the body element is a meta, noscript, link, script, style, or template element` — the parser, still `in head` / `after head`, would put that element into the head and create the body after it (`<body><script>a</script>` → the script no longer runs with document.body present). In html.(*Minifier).Minify the `break` that drops an attribute-less html/head/body tag is reached, for a token that may be a Body start tag, only through a test of the look-ahead token's Hash against those six elements",
+		"an attribute-less <body> start tag is dropped without looking at the first element inside: a script, style, meta, link, noscript or template that follows is parsed into the head instead")
+	c.tagDropLooksAhead(pk, fd, "R03.9", "Colgroup", []string{"Col"}, []string{"Colgroup"}, false,
+		"HTML §13.1.2.4: a colgroup element's start tag can be omitted only `if the first thing inside the colgroup element is a col element, and if the element is not immediately preceded by another colgroup element whose end tag has been omitted` (and never when the element is empty). In html.(*Minifier).Minify the `break` that drops an attribute-less colgroup tag is reached only through a test of the look-ahead token's Hash against Col (start tag: is there a col to re-create the element from; end tag: does another colgroup follow that it must be kept apart from)",
+		"an attribute-less colgroup tag is dropped without looking at what follows: an empty `<colgroup></colgroup>` disappears, and `<colgroup><col class=a></colgroup><colgroup><col class=b></colgroup>` is merged into one column group")
+}
+
+// tagDropLooksAhead: the `break` that drops an attribute-less tag of element elem is only reached through a look-ahead test
+// naming the elements `six` (startOnly: paths on which t is known not to be a start tag are exempt).
+func (c *Ctx) tagDropLooksAhead(pk *packages.Package, fd *ast.FuncDecl, rule, elem string, six, alt []string, startOnly bool, text, msg string) {
+	c.R.Rule(rule, text)
+	info := pk.TypesInfo
+	g := c.graph(pk, fd)
+	// mentionsOther: expression text s compares the Hash of a token other than t with element k (either operand order)
+	mentionsOther := func(s, k string) bool {
+		for _, m := range regexp.MustCompile(`([A-Za-z_][A-Za-z0-9_.\[\]()]*)\.Hash[!=]=`+k+`\b|\b`+k+`[!=]=([A-Za-z_][A-Za-z0-9_.\[\]()]*)\.Hash`).FindAllStringSubmatch(s, -1) {
+			who := m[1] + m[2]
+			if who != "t" {
+				return true
+			}
+		}
+		return false
+	}
+	looksAhead := func(q *flow.Node) bool {
+		if as, ok := q.Stmt.(*ast.AssignStmt); ok && q.Kind == flow.KStmt && len(as.Rhs) == 1 {
+			// the verdict computed as a value: all six elements are named, on a token other than t
+			s := nospace(str(as.Rhs[0]))
+			all := func(names []string) bool {
+				if len(names) == 0 {
+					return false
+				}
+				for _, k := range names {
+					if !mentionsOther(s, k) {
+						return false
+					}
+				}
+				return true
+			}
+			return all(six) || all(alt)
+		}
+		if q.Kind != flow.KCond {
+			return false
+		}
+		s := nospace(str(q.Expr))
+		for _, k := range append(append([]string{}, six...), alt...) {
+			if mentionsOther(s, k) {
+				return true
+			}
+		}
+		return false
+	}
+	notBodyStart := func(q *flow.Node) bool {
+		if (q.Kind != flow.KTrue && q.Kind != flow.KFalse) || q.Of == nil || q.Of.Kind != flow.KCond {
+			return false
+		}
+		s := nospace(str(q.Of.Expr))
+		t := q.Kind == flow.KTrue
+		eq := func(a, b string) bool { return s == a+"=="+b || s == b+"=="+a }
+		ne := func(a, b string) bool { return s == a+"!="+b || s == b+"!="+a }
+		if eq("t.Hash", elem) && !t || ne("t.Hash", elem) && t {
+			return true
+		}
+		// t.Hash equals another element: not the one in question
+		if m := regexp.MustCompile(`^(?:t\.Hash==([A-Z][A-Za-z0-9_]*)|([A-Z][A-Za-z0-9_]*)==t\.Hash)$`).FindStringSubmatch(s); m != nil && t && m[1]+m[2] != elem {
+			return true
+		}
+		return startOnly && (eq("t.TokenType", "html.StartTagToken") && !t || ne("t.TokenType", "html.StartTagToken") && t || eq("t.TokenType", "html.EndTagToken") && t)
+	}
+	n := 0
+	for _, y := range g.Nodes {
+		if y.Kind != flow.KCond || (nospace(str(y.Expr)) != "t.Hash=="+elem && nospace(str(y.Expr)) != elem+"==t.Hash") {
+			continue
+		}
+		// the outcome nodes of this test inside the removal condition
+		var from []*flow.Node
+		for _, sc := range y.Succs {
+			if sc.Kind == flow.KTrue {
+				from = append(from, sc)
+			}
+		}
+		if len(from) == 0 {
+			continue
+		}
+		// is this the removal condition? some break must be reachable from it before the tag is written
+		isBreak := func(q *flow.Node) bool {
+			bs, ok := q.Stmt.(*ast.BranchStmt)
+			return ok && q.Kind == flow.KStmt && bs.Tok == token.BREAK && bs.Label == nil
+		}
+		writesTag := func(q *flow.Node) bool {
+			a := q.Ast()
+			return a != nil && q.Kind == flow.KStmt && strings.Contains(nospace(str0(a)), "w.Write(t.Data)")
+		}
+		reach := g.Path(flow.Search{From: from, Goal: isBreak, Avoid: writesTag})
+		if reach == nil {
+			continue
+		}
+		n++
+		p := g.Path(flow.Search{From: from, Goal: isBreak, Avoid: func(q *flow.Node) bool { return writesTag(q) || looksAhead(q) || notBodyStart(q) }})
+		label := "body start tag"
+		if elem != "Body" {
+			label = strings.ToLower(elem) + " tag"
+		}
+		c.R.Check(p == nil, rule, fmt.Sprintf("html.Minifier.Minify/%s dropped#%d only after a look-ahead", label, n), c.pos(y.Expr), "a test of the next element against "+strings.ToLower(strings.Join(six, "/"))+" lies on every path", msg+": "+pathStr(c, g, p))
+	}
+	_ = info
+	c.R.Floor(rule, "removal conditions naming "+elem, n, 1)
 }
